@@ -155,6 +155,8 @@ def gen_canonical(rng):
         if rng.random() < 0.2:
             defs.append([rng.choice(PMACS), ["P", rng.random() < 0.5, rng.choice(names)]])
         incs = [rng.choice(names) for _ in range(rng.choice([0, 0, 0, 1, 1, 2]))]
+        if incs and rng.random() < 0.3:
+            incs.append(incs[0])            # the same header forced twice (#pragma once must hold for -include too)
         entries.append([rng.randrange(NPLAT), [main, dirs, defs, incs]])
     entries.sort(key=lambda e: e[0])       # finder.find walks the configuration platform by platform
     return sorted(files.values(), key=lambda f: f[0]), entries
@@ -524,6 +526,11 @@ CORPUS_EXTRA = [
         [[0, [["cb", "src", "a.c"], [], [], []]]],
         [(["cb", "inc1", "lu.h"], 0, ["..", "src", "h.h"]), (["cb", "inc1", "lsrc"], 0, ["..", "src"])],
         entries=[[0, [["cb", "inc1", "lsrc", "a.c"], [], [], []]]]),
+    # the same '#pragma once' header forced twice, the second time through a link alias, and included once more by the file
+    _mk([[["cb", "inc1", "h.h"], _H], [["cb", "src", "a.c"], [["Inc", ["A", ["h.h"]]], ["Code"]]]],
+        [[0, [["cb", "src", "a.c"], [["cb", "inc1"]], [], [["h.h"], ["h.h"]]]]],
+        [(["cb", "inc1", "lh.h"], 0, ["h.h"]), (["cb", "li"], 0, ["inc1"])],
+        entries=[[0, [["cb", "src", "a.c"], [["cb", "li"]], [], [["h.h"], ["lh.h"]]]]]),
     # one file compiled through a link and through its real path, a link to a file outside, a link with a non-source name
     _mk([[["cb", "src", "a.c"], [["Code"], ["If", ["Defd", "F0"]], ["Code"], ["Endif"]]], [["ext", "x.c"], [["Code"]]]],
         [[0, [["cb", "src", "a.c"], [], [], []]], [1, [["cb", "src", "a.c"], [], [["F0", "E"]], []]], [1, [["ext", "x.c"], [], [], []]]],
